@@ -1,7 +1,10 @@
 import SigpyVerif.Model.Py
 import SigpyVerif.Model.Proto
 import SigpyVerif.Model.C03
+import SigpyVerif.Model.C03Np
 import SigpyVerif.Gen.StackParams
+import SigpyVerif.Gen.LinopApply
+import SigpyVerif.Model.C03Gen
 /-
   Line protocol of property C03.
 
@@ -12,6 +15,9 @@ import SigpyVerif.Gen.StackParams
                                                             used by the off-rank stream that exercises the zip guards)
           C:<n>  A:<n>            Compose / Add of the top n operators (first pushed = linops[0])
           ML:<a>  MR:<a>  N  S    a*A, A*a, -A, A-B
+        every operator is built with the constructors of Model/C03Gen.lean, i.e. from the TRANSLATOR-GENERATED guards,
+        parameter functions and `_apply` bodies (Gen/StackParams.lean, Gen/LinopApply.lean); the top-level application is the
+        generated `Linop.__call__`
           H:<n>:<axis>  V:<n>:<axis>  D:<n>:<oaxis>:<iaxis>      axis = int | none
         reply: `ok <oshape> <ishape> <output shape>|<output data>`   (apply succeeded)
                `ok <oshape> <ishape> apply-error`                    (built, application raises)
@@ -59,51 +65,51 @@ def step (st : List (Op GRat)) (tok : String) : Step :=
       let isz := (ish.map Int.toNat).foldr (· * ·) 1
       let osz := (osh.map Int.toNat).foldr (· * ·) 1
       if dat.length ≠ osz * isz then .bad else
-      pushR (matOp osh ish (chunkRows isz osz (dat.map toG))) st
+      pushR (G.matOp osh ish (chunkRows isz osz (dat.map toG))) st
     | _, _, _ => .bad
   | ["I", sh] =>
     match parseIntList? sh with
-    | some sh => pushR (idOp sh) st
+    | some sh => pushR (G.idOp sh) st
     | none => .bad
   | ["R", o, i] =>
     match parseIntList? o, parseIntList? i with
-    | some osh, some ish => pushR (reshapeOp osh ish) st
+    | some osh, some ish => pushR (G.reshapeOp osh ish) st
     | _, _ => .bad
   | ["C", n] =>
     match (parseNat? n).bind (popN · st) with
-    | some (ops, rest) => pushR (compose ops) rest
+    | some (ops, rest) => pushR (G.compose ops) rest
     | none => .bad
   | ["A", n] =>
     match (parseNat? n).bind (popN · st) with
-    | some (ops, rest) => pushR (add ops) rest
+    | some (ops, rest) => pushR (G.add ops) rest
     | none => .bad
   | ["ML", a] =>
     match parseCRat? a, st with
-    | some a, A :: rest => pushR (scaleL (toG a) A) rest
+    | some a, A :: rest => pushR (G.scaleL (toG a) A) rest
     | _, _ => .bad
   | ["MR", a] =>
     match parseCRat? a, st with
-    | some a, A :: rest => pushR (scaleR A (toG a)) rest
+    | some a, A :: rest => pushR (G.scaleR A (toG a)) rest
     | _, _ => .bad
   | ["N"] =>
     match st with
-    | A :: rest => pushR (neg A) rest
+    | A :: rest => pushR (G.neg A) rest
     | _ => .bad
   | ["S"] =>
     match st with
-    | B :: A :: rest => pushR (sub A B) rest
+    | B :: A :: rest => pushR (G.sub A B) rest
     | _ => .bad
   | ["H", n, ax] =>
     match (parseNat? n).bind (popN · st), parseAxis? ax with
-    | some (ops, rest), some ax => pushR (hstack ops ax) rest
+    | some (ops, rest), some ax => pushR (G.hstack ops ax) rest
     | _, _ => .bad
   | ["V", n, ax] =>
     match (parseNat? n).bind (popN · st), parseAxis? ax with
-    | some (ops, rest), some ax => pushR (vstack ops ax) rest
+    | some (ops, rest), some ax => pushR (G.vstack ops ax) rest
     | _, _ => .bad
   | ["D", n, oax, iax] =>
     match (parseNat? n).bind (popN · st), parseAxis? oax, parseAxis? iax with
-    | some (ops, rest), some oax, some iax => pushR (diag ops oax iax) rest
+    | some (ops, rest), some oax, some iax => pushR (G.diag ops oax iax) rest
     | _, _, _ => .bad
   | _ => .bad
 
@@ -131,7 +137,7 @@ def handle (toks : List String) : String :=
         | .build => "err build"
         | .ok [A] =>
           let hd := s!"ok {fmtShape A.oshape} {fmtShape A.ishape} "
-          match A.call ⟨xsh.map Int.toNat, xd.map toG⟩ with
+          match Gen.linopCall A ⟨xsh.map Int.toNat, xd.map toG⟩ with
           | .ok y => hd ++ s!"{fmtShape y.shape}|{fmtGList y.data}"
           | .error _ => hd ++ "apply-error"
         | .ok _ => "err bad-op"
